@@ -241,13 +241,14 @@ func evalC15(c c15Case, o *Obs) error {
 			pool[a].rel = append(pool[a].rel, len(pool)-1)
 		case "setnet":
 			a := pick(op.A)
-			if pool[a].zeroed {
-				continue
-			}
 			if op.Net < 0 || op.Net >= len(nets) {
 				return hbug("net")
 			}
 			pool[a].k.SetNet(nets[op.Net].Params)
+			if pool[a].zeroed {
+				o.Class("C15:setnet-on-zeroed-key") // stays zeroed: the invariant below
+				break
+			}
 			pool[a].r = pool[a].r.withNet(op.Net)
 			o.Class("C15:setnet")
 			for _, j := range pool[a].rel {
@@ -321,6 +322,13 @@ func evalC15(c c15Case, o *Obs) error {
 		}
 		for i, e := range pool {
 			if e.zeroed {
+				// once zeroed, always zeroed - whatever is done to this or to other keys afterwards
+				if s := e.k.String(); s != "zeroed extended key" {
+					return fmt.Errorf("key #%d (%s), zeroed earlier: %s String() = %q", i, e.origin, when, s)
+				}
+				if _, err := e.k.ECPrivKey(); err == nil || e.k.IsPrivate() {
+					return fmt.Errorf("key #%d (%s), zeroed earlier: %s it yields a private key again (ECPrivKey err=%v, IsPrivate=%v)", i, e.origin, when, err, e.k.IsPrivate())
+				}
 				continue
 			}
 			if err := c15Observe(e, i, deepAll, when); err != nil {
